@@ -197,6 +197,13 @@ func (s *SelectStmt) ValidateFields(ctx *CheckCtx) error {
 			return err
 		}
 	}
+	// The field types were taken while the names inside the fields were still
+	// unresolved, a field built on another field's name has its type only now
+	for i, f := range s.Fields {
+		if i < len(s.FieldTypes) {
+			s.FieldTypes[i] = f.ReturnType()
+		}
+	}
 	return nil
 }
 
